@@ -34,6 +34,9 @@ def call(ex, st, fn, args, kw, node):
             import decimal as _dec
             if isinstance(v, Sym): yield st, v.ty.kind == "dec"; return
             yield st, isinstance(v, _dec.Decimal); return
+        if tn in ("bytes", "bytearray", "float", "list", "tuple", "dict"):
+            if isinstance(v, Sym) and v.ty.kind in ("str", "int", "bool", "dec", "real"): yield st, False; return
+            if isinstance(v, (str, int)): yield st, False; return
         if tn == "int":
             if isinstance(v, Sym): yield st, v.ty.kind == "int"; return
             yield st, isinstance(v, int); return
